@@ -36,3 +36,12 @@ package common
 
 //@ func Ptr props C14
 //@ ensures result != nil && fresh(result) && *result == v
+
+//@ extern unicode/utf8.RuneCountInString pure
+//@ ensures result >= 0 && result <= len(s)
+
+//@ extern unicode/utf8.DecodeRuneInString
+//@ ensures result1 >= 0 && result1 <= 4 && result1 <= len(s) && implies(len(s) > 0, result1 >= 1)
+
+//@ extern strings.Join
+//@ ensures implies(len(elems) == 0, result == "") && implies(len(elems) == 1, result == elems[0])
